@@ -33,6 +33,7 @@ from .Yield import YieldSurface
 from . import _spectral
 from ...FEM._linalg import FeArray, TensorProd
 from ...Utilities import _params, _types, Tic
+from ...Utilities._observers import Observable, _IObserver
 
 # in-plane components [xx, yy, xy] of a 2D field inside the 3D (6,) Kelvin vector, and the
 # out-of-plane index condensed out under plane stress
@@ -75,7 +76,7 @@ class StateLayout(NamedTuple):
         return StateLayout(slots, start)
 
 
-class Behavior(_IModel):
+class Behavior(_IModel, _IObserver):
     """Elasticity, and later a yield surface, hardening and a rate law.
 
     The elastic model must be 3D: the state lives in 6D Kelvin whatever the problem dimension,
@@ -201,11 +202,22 @@ class Behavior(_IModel):
         # the local problem collapses to one scalar when the surface is quadratic and nothing
         # else evolves; the decomposition it runs in is built here, once, not per Gauss point
         self.solver = solver
+        self.__Build_eigen()
+        # the elastic law can be modified after the behavior is built
+        elastic._Add_observer(self)
+
+    def __Build_eigen(self) -> None:
         self.__eigen = (
-            _spectral.Build(*elastic.Get_sqrt_C_S(), yieldSurface.P)
+            _spectral.Build(*self.__elastic.Get_sqrt_C_S(), self.__yield.P)
             if self.__Is_reducible()
             else None
         )
+
+    def _Update(self, observable: Observable, event: str) -> None:
+        if observable is self.__elastic:
+            # the decomposition the spectral return runs in is built from C
+            self.__Build_eigen()
+            self.Need_Update()
 
     def __Is_reducible(self) -> bool:
         """Whether the spectral return applies: quadratic surface, homogeneous C, nothing else."""
